@@ -205,6 +205,26 @@ CHECKS.update({
         "DESIGN.md section 3, C18"),
 })
 
+CHECKS.update({
+    "C06": (
+        "model_checking",
+        "exhaustive enumeration of document pairs (identity, all single-edit "
+        "neighbours, unrelated) x 10 mode combinations; invariant oracles on "
+        "the real Differ's report",
+        "For every L of the corpus and every R in {L, every single-edit "
+        "neighbour of L, a sub-corpus} x {position, value} x {position, dpos, "
+        "value, key, deep}: a non-SAME entry exists iff the documents differ "
+        "as data under that mode; under positional comparison every entry's "
+        "lhs/rhs is what the documents hold at its path (plain navigation), "
+        "SAME values are equal, CHANGE values differ, every scalar/null leaf "
+        "is covered, and flat lists are accounted for exactly once.",
+        "key/deep only where the compared lists hold only hashes; a list "
+        "mixing hashes with other members is skipped when the array and AoH "
+        "modes disagree (which governs is undefined); {} vs {} may stay "
+        "silent",
+        "DESIGN.md section 3, C06"),
+})
+
 NOT_YET = {
 }
 
